@@ -832,6 +832,14 @@ func (env *Env) call(e *ast.CallExpr) Term {
 		argn(2)
 		a, b := env.tr(e.Args[0]), env.tr(e.Args[1])
 		return boolT(fmt.Sprintf("(str.prefixof %s %s)", b.S, a.S))
+	case "isfresh":
+		// isfresh(p): the object p was allocated during this call (after function entry)
+		argn(1)
+		x := env.tr(e.Args[0])
+		if env.old == nil {
+			cerr("isfresh needs an entry state")
+		}
+		return boolT(fmt.Sprintf("(> %s %s)", x.S, g.now(env.old)))
 	case "hassuffix":
 		argn(2)
 		a, b := env.tr(e.Args[0]), env.tr(e.Args[1])
